@@ -222,7 +222,8 @@ func (r *hubRig) observe(w int, quiet bool) {
 func hubCorpus(w *coll) {
 	hb := backend.VerifWatchBuffer
 	key, val := []byte("/h/k"), []byte("v")
-	// H1 (finding C05-F1) and H2 (deleter runs at once): a subscriber that stops reading
+	// H1 (witness of the fixed defect C05-F1: deletion of the slow subscriber held back) and H2 (not held): a
+	// subscriber that stops reading
 	for variant := 0; variant < 2; variant++ {
 		r := newHubRig(100)
 		slow := r.add()
@@ -255,32 +256,31 @@ func hubCorpus(w *coll) {
 		r.drain(fast, 1)
 		if variant == 0 {
 			waitUntil(20*time.Second, func() bool { return atomic.LoadInt32(&r.hk.parked) == 1 })
+			// The deletion of the slow subscriber is held at its first metric emission. It runs on the hub's own
+			// goroutine (Stream deletes slow subscribers before it takes the next item), so the hub is parked and
+			// takes the next item only once the driver lets go. Should the deletion ever run on a goroutine of
+			// its own again (C05-F1), the hub goes on, the next batch is accepted after the dropped one and the
+			// observations below disagree with the model: an unlisted VIOLATION.
 			r.sc.drops(int(atomic.LoadInt32(&r.hk.drops)))
-			r.sc.subs(r.hub.VerifSubs())
 			r.observe(slow, false)
-			r.drain(slow, 1) // the consumer takes one batch: there is room again
+			r.drain(slow, 1) // the consumer takes one batch: there would be room again
 			syncDelete := false
 			r.itemB(2, false, func() int {
-				// the hub itself is running the deleter (synchronous delete): let it finish first
 				syncDelete = true
 				r.hk.releaseDeleters()
 				waitUntil(20*time.Second, func() bool { return r.hub.VerifSubs() == 1 })
-				r.sc.lab(lW("LHubDelete", slow))
 				return 1
 			})
-			// accepted although the previous batch was dropped (unless the deleter ran first)
 			r.sc.labs(lTake(slot{rev: r.rev, prev: r.rev - 1, valid: true, verb: 1, key: key, val: val}), "LSeqCache", "LSeqSend", lHubItem())
 			r.drain(fast, 1)
 			r.observe(slow, false)
 			if !syncDelete {
 				r.hk.releaseDeleters()
 				waitUntil(20*time.Second, func() bool { return r.hub.VerifSubs() == 1 })
-				r.sc.lab(lW("LHubDelete", slow))
 			}
 			r.sc.subs(r.hub.VerifSubs())
 		} else {
 			waitUntil(20*time.Second, func() bool { return r.hub.VerifSubs() == 1 })
-			r.sc.lab(lW("LHubDelete", slow))
 			r.sc.drops(int(atomic.LoadInt32(&r.hk.drops)))
 			r.sc.subs(r.hub.VerifSubs())
 			r.drain(slow, 1)
@@ -290,7 +290,7 @@ func hubCorpus(w *coll) {
 		r.drain(slow, hb+5)
 		r.observe(slow, false)
 		r.observe(fast, true)
-		name := "hub-overflow-async-delete"
+		name := "hub-overflow-deleter-held"
 		if variant == 1 {
 			name = "hub-overflow-prompt-delete"
 		}
